@@ -72,6 +72,8 @@ type Engine struct {
 	fltOf      map[string]fltInfo
 	extraDecls []string
 	sortFacts  []sortFact
+	mergeDefs  map[string][]string
+	leafT      map[string]types.Type
 }
 
 type sortFact struct {
@@ -108,7 +110,7 @@ type modelVar struct {
 func newEngine(w *World, unit *ssa.Function) *Engine {
 	return &Engine{w: w, unit: unit, decls: map[string]string{}, comps: map[string]string{}, initials: map[string]string{},
 		once: map[string]bool{}, unsupp: map[string]int{}, unmod: map[string]int{}, inlined: map[string]int{}, trusted: map[string]int{},
-		imprecise: map[string]int{}, strlits: map[string]string{}, tags: map[string]int{}, storeDefs: map[string]storeDef{}, fltOf: map[string]fltInfo{}, ifaces: map[string]IfaceInfo{}}
+		imprecise: map[string]int{}, strlits: map[string]string{}, tags: map[string]int{}, storeDefs: map[string]storeDef{}, mergeDefs: map[string][]string{}, fltOf: map[string]fltInfo{}, ifaces: map[string]IfaceInfo{}}
 }
 
 type retSite struct {
@@ -624,6 +626,18 @@ func (f *frame) enterLoop(li *loopInfo, b *ssa.BasicBlock, pc0 string, h *Heap, 
 	li.phiAtHead = map[*ssa.Phi]Val{}
 	for _, ins := range b.Instrs {
 		if in, ok := ins.(*ssa.Phi); ok {
+			// a phi whose back-edge operands are all the phi itself never changes in the loop
+			invariant := true
+			for i, p := range b.Preds {
+				if isBackEdge(p, b) && in.Edges[i] != ssa.Value(in) {
+					invariant = false
+				}
+			}
+			if invariant {
+				li.phiAtHead[in] = entryPhi[in]
+				f.vals[in] = entryPhi[in]
+				continue
+			}
 			v := e.havocVal(f.prefix+in.Name()+"."+in.Comment, in.Type())
 			li.phiAtHead[in] = v
 			f.vals[in] = v
